@@ -196,23 +196,27 @@ func (s *Sched) RunFree(limit time.Duration) bool {
 	// A hang is reported only when NO task made progress (the logical clock stood still) for a whole
 	// window of the given length. Total elapsed time is not a signal: on a loaded machine a program
 	// of a few milliseconds can take longer than any fixed limit (DESIGN.md §14, alarm 17).
-	last, lastMove, began := -1, time.Now(), time.Now()
+	// The window is counted in polls, not read off the clock: a process (or machine) that was
+	// stopped for a minute comes back with ONE poll due, not with a minute of "no progress".
+	last, idle, began := -1, 0, time.Now()
+	tick := time.NewTicker(limit / 10)
+	defer tick.Stop()
 	for {
 		select {
 		case <-done:
 			return s.Panic == ""
-		case <-time.After(limit / 10):
+		case <-tick.C:
 		}
 		s.mu.Lock()
 		now := s.clock
 		s.mu.Unlock()
 		if now != last {
-			last, lastMove = now, time.Now()
+			last, idle = now, 0
 			continue
 		}
-		if time.Since(lastMove) >= limit {
+		if idle++; idle >= 12 {
 			s.mu.Lock()
-			s.Hang = fmt.Sprintf("no task made progress for %s under real parallelism (%s after the start; deadlock, or a task died holding a latch) ", limit, time.Since(began).Round(time.Second))
+			s.Hang = fmt.Sprintf("no task made progress during %d consecutive polls %s apart under real parallelism (%s after the start; deadlock, or a task died holding a latch) ", idle, limit/10, time.Since(began).Round(time.Second))
 			s.mu.Unlock()
 			return false
 		}
@@ -285,24 +289,38 @@ func (s *Sched) Run() bool {
 
 // await waits for the running task to park or finish.
 func (s *Sched) await(t *schedTask) bool {
+	var e schedEvent
 	select {
-	case e := <-t.parked:
-		t.blocked = false
-		if strings.HasPrefix(e.Point, "panic") {
-			t.done = true
-			s.Panic = fmt.Sprintf("task %d (%s): %s", t.id, t.name, e.Point)
-			s.record(schedEvent{Task: t.id, Point: "panic"})
+	case e = <-t.parked:
+	case <-time.After(s.StepLimit):
+		// confirmation period (see after() in stats.go): a process that was stopped for longer
+		// than the limit comes back with this timer due although the task got no time; the
+		// stop can use up only one of the short timers that follow
+		got := false
+		for i := 0; i < 5 && !got; i++ {
+			select {
+			case e = <-t.parked:
+				got = true
+			case <-time.After(s.StepLimit / 5):
+			}
+		}
+		if !got {
+			s.Hang = fmt.Sprintf("task %d (%s) did not reach a yield point or finish within %s (deadlock?)", t.id, t.name, 2*s.StepLimit)
 			return false
 		}
-		if e.Point == "done" {
-			t.done = true
-		}
-		s.record(e)
-		return true
-	case <-time.After(s.StepLimit):
-		s.Hang = fmt.Sprintf("task %d (%s) did not reach a yield point or finish within %s (deadlock?)", t.id, t.name, s.StepLimit)
+	}
+	t.blocked = false
+	if strings.HasPrefix(e.Point, "panic") {
+		t.done = true
+		s.Panic = fmt.Sprintf("task %d (%s): %s", t.id, t.name, e.Point)
+		s.record(schedEvent{Task: t.id, Point: "panic"})
 		return false
 	}
+	if e.Point == "done" {
+		t.done = true
+	}
+	s.record(e)
+	return true
 }
 
 // RunMayBlock resumes task id as a may-block step (latch-held mode): if it
